@@ -300,7 +300,7 @@ def balanced_end(text, start):
 
 
 def norm_action(a):
-    """remove comments and all white space outside literals; strip one level of outer braces"""
+    """remove comments, `const` qualifiers and all white space outside literals; strip outer braces"""
     out = []
     i = 0
     n = len(a)
@@ -324,6 +324,14 @@ def norm_action(a):
             continue
         if c.isspace():
             i += 1
+            continue
+        if c.isalpha() or c == '_':
+            j = i
+            while j < n and (a[j].isalnum() or a[j] == '_'):
+                j += 1
+            if a[i:j] != 'const':           # a const qualifier changes nothing the model could see
+                out.append(a[i:j])
+            i = j
             continue
         out.append(c)
         i += 1
